@@ -687,6 +687,53 @@ def hosts_conv():
             h.n("BatchNormalization", ["g", "sc", "bi", "mean", "var"], "y", epsilon=eps)
             h.out("y")
             out.append(h.build())
+    # BatchNormalization in training mode (statistics of the batch): with the running outputs unused / used
+    for inbound, stats_used in itertools.product(["Conv", "none"], [False, True]):
+        h = H(f"BatchNorm training_mode=1 after {inbound}, running outputs {'used' if stats_used else 'unused'}")
+        h.inp("x", F, (2, 2, 3))
+        src = "x"
+        C = 2
+        if inbound == "Conv":
+            h.c("w", w((3, 2, 2)))
+            h.n("Conv", ["x", "w"], "c")
+            src, C = "c", 3
+        h.c("sc", w((C,)))
+        h.c("bi", w((C,)))
+        h.c("mean", w((C,)))
+        h.c("var", (rng.integers(1, 5, size=(C,)) / 2).astype(f32))
+        h.n("BatchNormalization", [src, "sc", "bi", "mean", "var"], ["y", "rm", "rv"], training_mode=1)
+        h.out_types = {"rm": (F, [C]), "rv": (F, [C])}
+        h.out("y", *(["rm", "rv"] if stats_used else []))
+        out.append(h.build())
+    # ConvTranspose: batchnorm fusion and optional zero bias (weights are [C_in, C_out/group, k])
+    for (group, strides, pads, opad), with_bias, eps in itertools.product(
+            [(1, [1], [0, 0], [0]), (2, [1], [0, 0], [0]), (1, [2], [1, 0], [1]), (2, [2], [0, 1], [0])], [True, False], [1e-5, 0.5]):
+        cin, cout_g = 4, 3 if group == 1 else 2
+        cout = cout_g * group
+        h = H(f"BatchNorm(ConvTranspose(x, w{', b' if with_bias else ''})) group={group} strides={strides} pads={pads} output_padding={opad} eps={eps}")
+        h.inp("x", F, (1, cin, 3))
+        h.c("w", w((cin, cout_g, 2)))
+        ins = ["x", "w"]
+        if with_bias:
+            h.c("b", w((cout,)))
+            ins.append("b")
+        h.n("ConvTranspose", ins, "c", group=group, strides=strides, pads=pads, output_padding=opad)
+        h.c("sc", w((cout,)))
+        h.c("bi", w((cout,)))
+        h.c("mean", w((cout,)))
+        h.c("var", (rng.integers(1, 5, size=(cout,)) / 2).astype(f32))
+        h.n("BatchNormalization", ["c", "sc", "bi", "mean", "var"], "y", epsilon=eps)
+        h.out("y")
+        out.append(h.build())
+    for bias_val, form, group in itertools.product([0.0, 1e-9, 1.0], FORMS, [1, 2]):
+        cout_g = 2
+        h = H(f"ConvTranspose with bias={bias_val} form={form} group={group}")
+        h.inp("x", F, (1, 2 * group, 3))
+        h.c("w", w((2 * group, cout_g, 2)))
+        h.c("bz", np.full((cout_g * group,), bias_val, dtype=f32), form)
+        h.n("ConvTranspose", ["x", "w", "bz"], "y", group=group)
+        h.out("y")
+        out.append(h.build())
     # affine <-> conv
     for order, sshape in itertools.product(["affine_conv", "conv_affine"], [(), (1,), (1, 1, 1)]):
         h = H(f"{order} scale/offset shape={list(sshape)}")
